@@ -19,6 +19,7 @@ import (
 	"github.com/bronlabs/bron-crypto/pkg/base/curves/p256"
 	rvole_bbot "github.com/bronlabs/bron-crypto/pkg/mpc/rvole/bbot"
 	rvole_softspoken "github.com/bronlabs/bron-crypto/pkg/mpc/rvole/softspoken"
+	"github.com/bronlabs/bron-crypto/pkg/mpc/session"
 	"github.com/bronlabs/bron-crypto/pkg/ot/base/ecbbot"
 	"github.com/bronlabs/bron-crypto/pkg/ot/base/vsot"
 	"github.com/bronlabs/bron-crypto/pkg/transcripts"
@@ -549,6 +550,43 @@ type rvObs struct {
 	hk *rvHook
 	// tampered ATilde run with hooks: the challenges Bob re-derives from the altered matrix
 	thetaP [][]*big.Int
+	// independent recomputation of roTheta over the FULL matrix of the run's (possibly altered) message, on a clone of
+	// Bob's public session context taken before his last round (hagrid transcript driven by the harness)
+	thetaRe [][]*big.Int
+}
+
+// the multipliers' transcript labels for roTheta (replicated: the recomputation is only compared when the accessors exist)
+var thetaLabels = map[string][2]string{
+	"rvb": {"BRON_CRYPTO_BBOT_MULTIPLY-A_TILDE-", "BRON_CRYPTO_BBOT_MULTIPLY-THETA-"},
+	"rvs": {"BRON_CRYPTO_SOFTSPOKEN_OT_MULTIPLY-A_TILDE-", "BRON_CRYPTO_SOFTSPOKEN_OT_MULTIPLY-THETA-"},
+}
+
+func recomputeTheta[S algebra.PrimeFieldElement[S]](field algebra.PrimeField[S], snap *session.Context, variant string, at [][]S, l, rho int) [][]*big.Int {
+	if snap == nil {
+		return nil
+	}
+	tr := snap.Clone().Transcript()
+	lb := thetaLabels[variant]
+	for _, row := range at {
+		for _, e := range row {
+			tr.AppendBytes(lb[0], e.Bytes())
+		}
+	}
+	out := make([][]*big.Int, l)
+	for i := range out {
+		for k := 0; k < rho; k++ {
+			bs, err := tr.ExtractBytes(lb[1], uint(field.WideElementSize()))
+			if err != nil {
+				return nil
+			}
+			e, err := field.FromWideBytes(bs)
+			if err != nil {
+				return nil
+			}
+			out[i] = append(out[i], new(big.Int).SetBytes(e.Bytes()))
+		}
+	}
+	return out
 }
 
 // rvHook holds what the `verif` accessors of the multiplier expose (copies), as integers.
@@ -756,7 +794,11 @@ func rvRun[P curves.Point[P, B, S], B algebra.FieldElement[B], S algebra.PrimeFi
 			c = cc
 			honAT, honEta, honMu = cloneMat(r3.ATilde), append([]S{}, r3.Eta...), append([]byte{}, r3.Mu...)
 			orc := hookOracle[S](bob)
+			snap := ctxs[2].Clone()
 			defer func() {
+				if o.err == "" && (t == nil || t.what[0] == 'A') {
+					o.thetaRe = recomputeTheta(field, snap, variant, r3.ATilde, l, o.rho)
+				}
 				if o.err != "" || orc == nil {
 					return
 				}
@@ -841,7 +883,11 @@ func rvRun[P curves.Point[P, B, S], B algebra.FieldElement[B], S algebra.PrimeFi
 				r2hon = honAT
 			}
 			orc := hookOracle[S](bob)
+			snap := ctxs[2].Clone()
 			defer func() {
+				if o.err == "" && (t == nil || t.what[0] == 'A') {
+					o.thetaRe = recomputeTheta(field, snap, variant, r2.ATilde, l, o.rho)
+				}
 				if o.err != "" || orc == nil {
 					return
 				}
@@ -1057,6 +1103,28 @@ func runRvole(d desc) outcome {
 			what = fmt.Sprintf("A%d.%d", tr.Intn(hon.xi), l+tr.Intn(hon.rho))
 		case "Ain":
 			what = fmt.Sprintf("A%d.%d", tr.Intn(hon.xi), tr.Intn(l))
+		case "Acheck0", "Acheck1", "Ain0", "Ain1":
+			// a cell of a row j with beta_j = 0 / 1: trailing check column (Acheck) or input column (Ain)
+			want := what[len(what)-1] - '0'
+			bsrc := hon.beta
+			if hon.hk != nil {
+				bsrc = hon.hk.beta
+			}
+			j0, found := tr.Intn(hon.xi), -1
+			for k := 0; k < hon.xi; k++ {
+				if j := (j0 + k) % hon.xi; getBit(bsrc, j) == want {
+					found = j
+					break
+				}
+			}
+			if found < 0 {
+				continue // no such row (beta all zero / all ones)
+			}
+			col := tr.Intn(l)
+			if strings.HasPrefix(what, "Acheck") {
+				col = l + tr.Intn(hon.rho)
+			}
+			what = fmt.Sprintf("A%d.%d", found, col)
 		case "E":
 			what = fmt.Sprintf("E%d", tr.Intn(hon.rho))
 		case "M":
@@ -1079,6 +1147,10 @@ func runRvole(d desc) outcome {
 	}
 	verdicts := "1"
 	tparts := []string{"-"}
+	thetaReBad := ""
+	if hon.hk != nil && hon.thetaRe != nil && fmt.Sprint(hon.thetaRe) != fmt.Sprint(hon.hk.theta) {
+		thetaReBad = "honest run: library theta differs from the recomputation over the full matrix"
+	}
 	var thetaPs [][][]*big.Int // per ATilde alteration: Bob's re-derived challenges (hooks), nil otherwise
 	for _, t := range ts {
 		t := t
@@ -1091,6 +1163,16 @@ func runRvole(d desc) outcome {
 		tparts = append(tparts, t.what+":"+vh.ZHex(t.dlt))
 		if t.what[0] == 'A' {
 			thetaPs = append(thetaPs, ob.thetaP)
+			if hon.hk != nil && ob.thetaP != nil {
+				// the challenges must be bound to every cell of ATilde: an altered cell gives different challenges
+				if fmt.Sprint(ob.thetaP) == fmt.Sprint(hon.hk.theta) {
+					o.prop = append(o.prop, mm(d.with("tamper", t.what+":"+vh.ZHex(t.dlt)), "prop", d.kind+"-theta-unbound",
+						"vole_atilde_altered_partial (theta' = roTheta of the altered matrix)", "altering ATilde cell "+t.what+" leaves the challenges theta unchanged", true))
+				}
+				if ob.thetaRe != nil && fmt.Sprint(ob.thetaRe) != fmt.Sprint(ob.thetaP) {
+					thetaReBad = "altered " + t.what + ": library theta' differs from the recomputation over the full altered matrix"
+				}
+			}
 		}
 		// property: an altered check value makes Bob abort (an altered eta cannot be seen when all beta_j = 0)
 		expectAbort := !(t.what[0] == 'E' && betaZero)
@@ -1178,6 +1260,9 @@ func runRvole(d desc) outcome {
 	o.cmp = func(outs []string) []vh.Mismatch {
 		var ms []vh.Mismatch
 		kv := kvOf(outs[0])
+		if thetaReBad != "" {
+			ms = append(ms, mm(d, "corr", d.kind+"-theta-recompute", "roTheta = transcript extraction after absorbing every entry of ATilde", thetaReBad, pf))
+		}
 		if betaKnown && kv["V"] != verdicts {
 			ms = append(ms, mm(d, "corr", d.kind+"-tamper-verdicts", "correspondence bob_round4 accept/abort (vole_mu_altered, vole_eta_altered, vole_atilde_altered_partial)",
 				"model "+kv["V"]+" impl "+verdicts+" for "+strings.Join(tparts, ";"), pf))
@@ -1251,7 +1336,7 @@ func genRvole(thorough bool, n *int) []desc {
 		ds = append(ds, newDesc(kind, append(kvs, "n", strconv.Itoa(*n))...))
 	}
 	// bbot: every run is a full ecbbot batch (xi = kappa+160 instances of l+rho OTs); few cases, one alteration each
-	add("rvb", "curve", "k256", "l", "1", "a", "qm1", "beta", "rand", "tamper", "M")
+	add("rvb", "curve", "k256", "l", "1", "a", "qm1", "beta", "rand", "tamper", "M;Acheck0;Acheck1:rand")
 	if thorough {
 		add("rvb", "curve", "p256", "l", "1", "a", "rand", "beta", "zero", "tamper", "E:rand")
 		add("rvb", "curve", "k256", "l", "2", "a", "mixed", "beta", "rand", "tamper", "Ain")
@@ -1260,6 +1345,7 @@ func genRvole(thorough bool, n *int) []desc {
 				add("rvb", "curve", c, "l", "3", "a", as, "beta", "rand", "tamper", "E;Acheck:rand;M")
 			}
 			add("rvb", "curve", c, "l", "2", "a", "rand", "beta", "ones", "tamper", "E:qm1;A:qm1")
+			add("rvb", "curve", c, "l", "2", "a", "rand", "beta", "rand", "tamper", "Acheck0:rand;Acheck1;Ain0;Ain1:qm1")
 		}
 	}
 	// softspoken variant: cheap runs, many inputs and alterations
@@ -1278,7 +1364,10 @@ func genRvole(thorough bool, n *int) []desc {
 		}
 		add("rvs", "curve", c, "l", "2", "a", "rand", "beta", "zero", "tamper", "E:rand;E:qm1;M;Acheck")
 		add("rvs", "curve", c, "l", "1", "a", "rand", "beta", "ones", "tamper", "E;A:qm1;Acheck:rand")
-		add("rvs", "curve", c, "l", "3", "a", "rand", "beta", "one", "tamper", "E:rand;Ain;M")
+		add("rvs", "curve", c, "l", "3", "a", "rand", "beta", "one", "tamper", "E:rand;Ain;M;Acheck0;Acheck1")
+		// the trailing rho check columns, in rows with beta_j = 0 and beta_j = 1
+		add("rvs", "curve", c, "l", "2", "a", "rand", "beta", "rand", "tamper", "Acheck0;Acheck1;Acheck0:rand;Acheck1:qm1;Ain0:rand;Ain1")
+		add("rvs", "curve", c, "l", "1", "a", "mixed", "beta", "alt", "tamper", "Acheck0:qm1;Acheck1:rand;Acheck0;Acheck1")
 		for k := 0; k < reps; k++ {
 			add("rvs", "curve", c, "l", strconv.Itoa(1+k%3), "a", "rand", "beta", "rand", "tamper", "A:rand;E:rand;M;Acheck;Ain:qm1")
 		}
